@@ -145,10 +145,11 @@ class Prop:
     ADV_ACTIONS = ["reg", "unreg_self", "unreg_other", "add_trait", "remove_trait", "delattr",
                    "popdict", "cleardict", "clear_notifiers", "pop_notifier", "append_garbage",
                    "assign_again", "assign_other", "release", "gc", "raise", "mutate_list",
-                   "read_default", "clone", "sync", "property_changed"]
+                   "read_default", "clone", "sync", "property_changed", "rebind_helper"]
     ADV_OPS = ["set", "set", "set", "get", "del", "list", "dict", "event", "prop", "deleg",
                "add_trait", "remove_trait", "pickle", "clone", "ctrait", "setq", "items_event",
-               "reg", "unreg", "gc", "child", "evil_drop", "bad_set", "trait_set", "reset"]
+               "reg", "unreg", "gc", "child", "evil_drop", "bad_set", "trait_set", "reset",
+               "helper", "helper"]
 
     def gen_adv(self, seed):
         r = stream(seed, "adv")
@@ -163,7 +164,7 @@ class Prop:
             envs = []
             for _ in range(nenv):
                 envs.append({"at": r.choice(["h:any", "h:any", "validator:cv", "default:dflt",
-                                             "getter:p", "setter:p", "del:evil"]),
+                                             "getter:p", "setter:p", "del:evil", "default:hx"]),
                              "nth": r.choice([1, 1, 2, 3]), "do": "adv",
                              "act": r.choice(self.ADV_ACTIONS), "o": r.randrange(3),
                              "name": r.choice(["a", "b", "i", "l", "cv"]), "v": r.randrange(12),
@@ -173,12 +174,16 @@ class Prop:
                 # self-targeting re-entrancy: from inside the callback that decides this
                 # very access, pull the rug - replace / remove the trait of the same name
                 # on the same object, delete the attribute, empty the dictionary
-                op["name"] = r.choice(["cv", "cv", "dflt", "a"])
+                op["name"] = r.choice(["cv", "cv", "dflt", "a", "dh"])
                 op["k"] = r.choice(["set", "setq", "trait_set", "get", "del", "bad_set"])
-                site = {"cv": "validator:cv", "dflt": "default:dflt", "a": "h:any"}[op["name"]]
+                if op["name"] == "dh":
+                    op["k"] = "helper"
+                site = {"cv": "validator:cv", "dflt": "default:dflt", "a": "h:any",
+                        "dh": "default:hx"}[op["name"]]
                 envs.append({"at": site, "nth": r.choice([1, 1, 2]), "do": "adv",
-                             "act": r.choice(["add_trait", "add_trait", "remove_trait", "delattr",
-                                              "popdict", "cleardict"]),
+                             "act": "rebind_helper" if op["name"] == "dh" else
+                             r.choice(["add_trait", "add_trait", "remove_trait", "delattr",
+                                       "popdict", "cleardict"]),
                              "o": op["o"], "name": op["name"], "v": r.randrange(12),
                              "exc": "ValueError"})
             if envs:
@@ -247,6 +252,11 @@ class Prop:
         def _set_p(obj, v):
             env.point("setter:p")
             obj.__dict__["_pv"] = v
+        def _hx_default(obj):
+            env.point("default:hx")
+            return [Evil(98)]
+        # an object that only its owner refers to, reached through delegation
+        Hx = type(T.HasTraits)("Hx", (T.HasTraits,), {"hx": T.Any(), "_hx_default": _hx_default})
         st1, st2 = H("static_a"), H("static_l_items")
         with warnings.catch_warnings():
             warnings.simplefilter("ignore")
@@ -256,6 +266,8 @@ class Prop:
                 "dflt": T.Any(), "p": T.Property(), "cp": T.Property(observe="a"),
                 "partner": T.Instance(T.HasTraits), "dv": T.DelegatesTo("partner", prefix="a"),
                 "child": T.Instance(T.HasTraits), "ro": T.ReadOnly,
+                "helper": T.Instance(T.HasTraits), "dh": T.DelegatesTo("helper", prefix="hx"),
+                "ph": T.PrototypedFrom("helper", prefix="hx"),
                 "_dflt_default": _dflt_default, "_get_p": _get_p, "_set_p": _set_p,
                 "_get_cp": T.cached_property(lambda obj: (env.point("getter:cp"), obj.a)[1]),
                 "_a_changed": lambda obj, old, new: st1(), "_l_items_changed": lambda obj, ev: st2(),
@@ -368,6 +380,9 @@ class Prop:
                     safe(o.clone_traits)
                 elif a == "sync":
                     safe(o.sync_trait, name, obj(ev["o"] + 1))
+                elif a == "rebind_helper":
+                    # drop the only reference to the delegate while it is being read
+                    safe(setattr, o, "helper", Hx() if ev["v"] % 2 else None)
                 elif a == "property_changed":
                     safe(o.trait_property_changed, "p", 1, 2)
                     safe(o.trait_property_changed, "cp", 1)
@@ -390,6 +405,15 @@ class Prop:
                 safe(setattr, o, "ro", v)
                 safe(setattr, o, "ro", v)
                 safe(setattr, o, "cp", v)
+            elif k == "helper":
+                safe(setattr, o, "helper", Hx())
+                safe(getattr, o, "dh")
+                safe(getattr, o, "ph")
+                safe(setattr, o, "helper", Hx())
+                safe(setattr, o, "dh", v)
+                safe(setattr, o, "ph", v)
+                safe(delattr, o, "ph")
+                safe(getattr, o, "ph")
             elif k == "get":
                 safe(getattr, o, name)
                 safe(getattr, o, "cp")
